@@ -150,7 +150,7 @@ def cmp_state(a, b):
     return cmp_trad_state(a, b)
 
 
-STAT_ERRS = (ValueError, ZeroDivisionError, IndexError, FloatingPointError)
+STAT_ERRS = (ValueError, ZeroDivisionError, IndexError, FloatingPointError, TypeError, KeyError, AttributeError)
 
 
 def _call(fn):
